@@ -1266,6 +1266,9 @@ type Bit struct {
 	ref        string
 	Position   int
 	extensions []*Extension
+
+	// true when position was written in YANG, zero is a legal position
+	positionSet bool
 }
 
 type Enum struct {
@@ -1276,6 +1279,9 @@ type Enum struct {
 	val        int
 	ifs        []*IfFeature
 	extensions []*Extension
+
+	// true when value was written in YANG, zero is a legal value
+	valSet bool
 }
 
 func (y *Enum) Value() int {
